@@ -14,8 +14,11 @@ type Event struct {
 	Ev  string `json:"ev"` // "reset" | "chunk" | "static"
 	Ast *Node  `json:"ast"`
 	Out []any  `json:"out"`
+	Byt []int  `json:"bytes"` // bytes written to the byte band
 	Exc J      `json:"exc"`
 	Src string `json:"src"` // rendered source (ignored by the specification)
+	// reset events: the in-memory modules of the program, [[name, chunk AST], ...]
+	Mods [][2]any `json:"mods"`
 
 	// static events (C16)
 	Kinds      []string `json:"kinds,omitempty"`
@@ -27,8 +30,32 @@ type Event struct {
 	Names      bool     `json:"names"`
 }
 
-func ResetEvent() Event {
-	return Event{Ev: "reset", Ast: Chunk(), Out: []any{}, Exc: J{"c": "ok"}}
+// Module is an in-memory module available to `use` (Evaler.BundledModules).
+type Module struct {
+	Name string
+	Ast  *Node
+}
+
+func ResetEvent(mods ...Module) Event {
+	e := Event{Ev: "reset", Ast: Chunk(), Out: []any{}, Byt: []int{}, Exc: J{"c": "ok"}, Mods: [][2]any{}}
+	for _, m := range mods {
+		e.Mods = append(e.Mods, [2]any{m.Name, m.Ast})
+	}
+	return e
+}
+
+// NewEvaler returns a fresh Evaler with the modules installed as bundled modules (their source
+// is the rendering of the AST, checked like every chunk).
+func NewEvaler(mods []Module) (*eval.Evaler, error) {
+	ev := elv.New()
+	for _, m := range mods {
+		src, err := CheckRender(m.Ast)
+		if err != nil {
+			return nil, fmt.Errorf("renderer defect (module %s): %v", m.Name, err)
+		}
+		ev.BundledModules[m.Name] = src
+	}
+	return ev, nil
 }
 
 // RunChunk renders a valid chunk (checking the rendering by re-parsing), evaluates it on ev with
@@ -49,7 +76,7 @@ func RunChunk(ev *eval.Evaler, ch *Node) (Event, error) {
 		if i := strings.IndexByte(first, '\n'); i > 0 {
 			first = first[:i]
 		}
-		return Event{Ev: "chunk", Ast: ch, Out: ProjectValues(o.Values), Exc: J{"c": "panic", "text": first}, Src: src}, nil
+		return Event{Ev: "chunk", Ast: ch, Out: ProjectValues(o.Values), Byt: bytesJSON(o.Bytes), Exc: J{"c": "panic", "text": first}, Src: src, Mods: [][2]any{}}, nil
 	}
 	switch ErrKind(o.Err) {
 	case "parse", "compile", "other":
@@ -59,16 +86,16 @@ func RunChunk(ev *eval.Evaler, ch *Node) (Event, error) {
 	if !ok {
 		return Event{}, fmt.Errorf("unclassifiable exception %v from: %s", cause["text"], src)
 	}
-	if len(o.Bytes) > 0 {
-		return Event{}, fmt.Errorf("core program wrote bytes %q: %s", o.Bytes, src)
-	}
-	return Event{Ev: "chunk", Ast: ch, Out: ProjectValues(o.Values), Exc: cause, Src: src}, nil
+	return Event{Ev: "chunk", Ast: ch, Out: ProjectValues(o.Values), Byt: bytesJSON(o.Bytes), Exc: cause, Src: src, Mods: [][2]any{}}, nil
 }
 
 // RunProgram runs the chunks of one program on a fresh Evaler.
-func RunProgram(chunks []*Node) ([]Event, error) {
-	ev := elv.New()
-	evs := []Event{ResetEvent()}
+func RunProgram(chunks []*Node, mods ...Module) ([]Event, error) {
+	ev, err := NewEvaler(mods)
+	if err != nil {
+		return nil, err
+	}
+	evs := []Event{ResetEvent(mods...)}
 	for _, ch := range chunks {
 		e, err := RunChunk(ev, ch)
 		if err != nil {
@@ -83,4 +110,4 @@ func RunProgram(chunks []*Node) ([]Event, error) {
 }
 
 // CoreFeatures: the feature set covered by spec and generator.
-var CoreFeatures = Features{Control: true, Fn: true, Exc: true, Logic: true, XCap: true, RestOpts: true, Pipes: true, More: true, Del: true, ErrRate: 1}
+var CoreFeatures = Features{Control: true, Fn: true, Exc: true, Logic: true, XCap: true, RestOpts: true, Pipes: true, More: true, Del: true, Cleanup: true, Bytes: true, Use: true, ErrRate: 1}
